@@ -26,11 +26,22 @@
 //! confirm <idx|last|oldest> <c>   Celestia includes a BlobTx it holds (by arrival index, or the
 //!                       newest / oldest still pending one) in block c
 //! crash                 kill the submitter (abort its task), drop everything in memory
+//! feed <nbytes>:<seed> ...   (C12 "run" cases) like `fetch`, but block i of the hand-over carries
+//!                       <nbytes> of rollup data (seed 0: highly compressible, else ChaCha bytes), so
+//!                       that `NextSubmission::try_add` inside the running submitter refuses blocks
+//!                       as `Full` and `run` has to park them in `pending_block`
+//! csizes                measurement only, nothing is sent: for every block b_i handed over by `feed`
+//!                       / `fetch` in this case and every j >= i, whether b_i..b_j fit one payload,
+//!                       asked of a fresh `NextSubmission` (`i-j=fit`, `i-j=<compressed size>` for
+//!                       the longest fitting run, then `i-j=full` or `i-j=over:<size>`); this is the
+//!                       `csize` parameter of the batching model
 //! ```
 //!
 //! Observation: `<op> .. ev=<events> file=<state file> txs=<idx:heights:status,..>` where events
 //! are `file:<content>` (the state file changed), `bcast:<idx>:<heights>:<plan>:<hash-in-file>`,
 //! `prepfail`, `gettx:<idx>:<c>` (a GetTx answered "in block c"), `exit:ok|err`.
+//! `heights` of a BlobTx are decoded from its sequencer-namespace blob the way conductor does
+//! (brotli, `SubmittedMetadataList`), in the order they appear in the blob.
 //!
 //! Test-only, add-only; compiled only with `--features verif`.
 use std::{
@@ -116,6 +127,13 @@ use prost::{
     Message as _,
     Name as _,
 };
+use rand_chacha::{
+    rand_core::{
+        RngCore as _,
+        SeedableRng as _,
+    },
+    ChaChaRng,
+};
 use sha2::{
     Digest as _,
     Sha256,
@@ -131,6 +149,10 @@ use tonic::{
 };
 
 use super::{
+    conversion::{
+        NextSubmission,
+        TryAddError,
+    },
     BlobSubmitter,
     BlobSubmitterHandle,
 };
@@ -544,6 +566,101 @@ fn make_block(height: u64) -> sequencer_client::SequencerBlock {
     .make()
 }
 
+/// A block whose single rollup carries `nbytes` of data (seed 0: one repeated byte, else ChaCha).
+fn make_sized_block(height: u64, nbytes: usize, seed: u64) -> sequencer_client::SequencerBlock {
+    let height = u32::try_from(height).expect("script heights fit u32");
+    let mut data = vec![0u8; nbytes];
+    if seed == 0 {
+        #[expect(clippy::cast_possible_truncation, reason = "test data")]
+        data.fill((nbytes % 251) as u8);
+    } else {
+        ChaChaRng::seed_from_u64(seed).fill_bytes(&mut data);
+    }
+    ConfigureSequencerBlock {
+        block_hash: Some(block::Hash::new(
+            Sha256::digest(format!("verif-block-{height}")).into(),
+        )),
+        chain_id: Some(SEQUENCER_CHAIN_ID.to_string()),
+        height,
+        signing_key: Some(astria_core::crypto::SigningKey::from([7u8; 32])),
+        sequence_data: vec![(RollupId::from_unhashed_bytes(b"verif-rollup"), data)],
+        ..ConfigureSequencerBlock::default()
+    }
+    .make()
+}
+
+/// How a block handed to the submitter was built (to build it again for `csizes`).
+#[derive(Clone, Copy)]
+enum Fed {
+    Plain(u64),
+    Sized(u64, usize, u64),
+}
+
+impl Fed {
+    fn height(self) -> u64 {
+        match self {
+            Fed::Plain(height) | Fed::Sized(height, ..) => height,
+        }
+    }
+
+    fn block(self) -> sequencer_client::SequencerBlock {
+        match self {
+            Fed::Plain(height) => make_block(height),
+            Fed::Sized(height, nbytes, seed) => make_sized_block(height, nbytes, seed),
+        }
+    }
+}
+
+/// `csizes`: which runs of consecutive handed-over blocks fit one payload, asked of a fresh
+/// `NextSubmission` per start block (nothing of the running submitter is touched).
+async fn op_csizes(fed: &[Fed], metrics: &'static Metrics) -> String {
+    let mut out = vec![];
+    for i in 0..fed.len() {
+        let mut next = NextSubmission::new(IncludeRollup::parse("").unwrap(), metrics);
+        let mut fitting: Option<usize> = None;
+        let mut refused = None;
+        for (j, spec) in fed.iter().enumerate().skip(i) {
+            match next.try_add(spec.block()) {
+                Ok(()) => fitting = Some(j),
+                Err(TryAddError::Full(_)) => {
+                    refused = Some(format!("{}-{}=full", fed[i].height(), spec.height()));
+                    break;
+                }
+                Err(TryAddError::OversizedBlock {
+                    compressed_size, ..
+                }) => {
+                    refused = Some(format!(
+                        "{}-{}=over:{compressed_size}",
+                        fed[i].height(),
+                        spec.height()
+                    ));
+                    break;
+                }
+                Err(TryAddError::IntoPayload(_)) => {
+                    refused = Some(format!("{}-{}=err", fed[i].height(), spec.height()));
+                    break;
+                }
+            }
+        }
+        if let Some(last) = fitting {
+            for spec in &fed[i..last] {
+                out.push(format!("{}-{}=fit", fed[i].height(), spec.height()));
+            }
+            let size = next
+                .take()
+                .await
+                .map_or("err".to_string(), |s| s.compressed_size().to_string());
+            out.push(format!("{}-{}={size}", fed[i].height(), fed[last].height()));
+        }
+        out.extend(refused);
+    }
+    if out.is_empty() {
+        "csizes -".to_string()
+    } else {
+        format!("csizes {}", out.join(","))
+    }
+}
+
 struct Case {
     world: Arc<Mutex<World>>,
     _dir: tempfile::TempDir,
@@ -551,6 +668,8 @@ struct Case {
     session: Option<Session>,
     _server: JoinHandle<()>,
     uri: String,
+    /// every block handed to the submitter in this case, in order
+    fed: Vec<Fed>,
 }
 
 async fn new_case(init: &str, vary: bool) -> Case {
@@ -607,6 +726,7 @@ async fn new_case(init: &str, vary: bool) -> Case {
         session: None,
         _server: server,
         uri: format!("http://{addr}"),
+        fed: vec![],
     }
 }
 
@@ -699,10 +819,38 @@ async fn run_op(case: &mut Case, toks: &[&str], metrics: &'static Metrics) -> St
                 if session.handle.try_send(Box::new(block)).is_err() {
                     break;
                 }
+                case.fed.push(Fed::Plain(session.reader_next));
                 session.reader_next += 1;
                 sent += 1;
             }
             finish_line(case, format!("fetch n={sent} first={first}"))
+        }
+        "feed" => {
+            let specs: Vec<(usize, u64)> = toks[1..]
+                .iter()
+                .map(|spec| {
+                    let (nbytes, seed) = spec.split_once(':').expect("feed <nbytes>:<seed>");
+                    (nbytes.parse().unwrap(), seed.parse().unwrap())
+                })
+                .collect();
+            let session = case.session.as_mut().expect("feed while down");
+            let first = session.reader_next;
+            let mut sent = 0;
+            for (nbytes, seed) in specs {
+                let block = make_sized_block(session.reader_next, nbytes, seed);
+                if session.handle.try_send(Box::new(block)).is_err() {
+                    break;
+                }
+                case.fed
+                    .push(Fed::Sized(session.reader_next, nbytes, seed));
+                session.reader_next += 1;
+                sent += 1;
+            }
+            finish_line(case, format!("feed n={sent} first={first}"))
+        }
+        "csizes" => {
+            let line = op_csizes(&case.fed, metrics).await;
+            finish_line(case, line)
         }
         "plan" => {
             let mut world = case.world.lock().unwrap();
@@ -776,7 +924,10 @@ async fn run_op(case: &mut Case, toks: &[&str], metrics: &'static Metrics) -> St
         "crash" => {
             if let Some(session) = case.session.take() {
                 session.task.abort();
-                let _ = session.task.await;
+                // (a task that has already exited was polled to completion by `tick`)
+                if !session.exited {
+                    let _ = session.task.await;
+                }
                 drop(session.handle);
             }
             finish_line(case, "crash".to_string())
@@ -803,7 +954,9 @@ async fn drive() {
             if let Some(mut old) = case.take() {
                 if let Some(session) = old.session.take() {
                     session.task.abort();
-                    let _ = session.task.await;
+                    if !session.exited {
+                        let _ = session.task.await;
+                    }
                 }
                 old._server.abort();
             }
